@@ -3,7 +3,7 @@ CONSTANTS
   SearchSet <- SearchDef
   Perturbs <- PerturbsDef
   Scales2 = {1, 2, 4}
-  Kinds = {"single", "batch", "group", "notemplate", "multi"}
+  Kinds = {"single", "batch", "group", "notemplate", "multi", "stack"}
   Models = {"ZNCC", "NCC", "PCC"}
   Orders = {1, 3}
 SPECIFICATION Spec
